@@ -2674,4 +2674,138 @@ theorem reader_sees_aggregates (e : Engine M) (sym : Nat) (t0 : Int) (rows : Lis
 
 end run
 
+/-! ### warm-up injection (`inject_warmup_candles_to_store`, model `Store.injectWarmup`)
+
+The warm-up candles reach the store before the first simulated minute, by a path of their own: the 1m array through
+`batch_add_candle`, each bigger timeframe through a loop that aggregates every complete window of the warm-up rows.
+The theorems say that this path leaves the store in exactly the state the simulators maintain (`StoreInv`, no partial
+candle): one candle per COMPLETE window, each the aggregate of its minutes — for every warm-up length (also one that
+ends inside a window: the unfinished window is not stored, and `get_candles` regenerates it from the 1m rows),
+every timeframe, every series of minutes that are one minute apart. -/
+section warmup
+open StoreProto
+
+theorem add_appends (arr : List Candle) (c : Candle) (hz : c.ts ≠ 0) (h : ∀ last, arr.getLast? = some last → last.ts < c.ts) :
+    addCandle arr c = arr ++ [c] := by
+  unfold addCandle
+  cases hl : arr.getLast? with
+  | none => simp [hz]
+  | some last => simp [hz, h last hl]
+
+/-- `batch_add_candle` of minutes that are one minute apart stores exactly those minutes -/
+theorem batchAdd_spaced (t0 : Int) (ht0 : 0 < t0) (cs : List Candle) : ∀ pre : List Candle, Spaced t0 (pre ++ cs) →
+    batchAdd pre cs = pre ++ cs := by
+  induction cs with
+  | nil => intro pre _; simp [batchAdd]
+  | cons c rest ih =>
+    intro pre hsp
+    have hc : c.ts = t0 + 60000 * (pre.length : Int) := by
+      have := hsp pre.length (by simp)
+      simpa using this
+    have hadd : addCandle pre c = pre ++ [c] := by
+      apply add_appends
+      · rw [hc]; have : (0 : Int) ≤ (pre.length : Int) := Int.natCast_nonneg _; omega
+      · intro last hl
+        have hne : pre ≠ [] := by intro h0; rw [h0] at hl; simp at hl
+        have hpos : 0 < pre.length := List.length_pos_iff.mpr hne
+        have hlast : last = pre[pre.length - 1] := by
+          rw [List.getLast?_eq_getElem?, List.getElem?_eq_getElem (by omega)] at hl
+          exact (Option.some.inj hl).symm
+        have h1 := hsp (pre.length - 1) (by simp; omega)
+        rw [List.getElem_append_left (by omega)] at h1
+        rw [hlast, h1, hc]
+        have : ((pre.length - 1 : Nat) : Int) = (pre.length : Int) - 1 := by omega
+        rw [this]; omega
+    have : batchAdd pre (c :: rest) = batchAdd (addCandle pre c) rest := rfl
+    rw [this, hadd, ih (pre ++ [c]) (by simpa using hsp)]
+    simp
+
+/-- the bigger-timeframe loop of the injection, after `j` of its iterations: one candle per complete window of the
+    first `j` warm-up minutes, each the aggregate of its minutes -/
+theorem injectLongUpTo_spec (m : Nat) (hm : 0 < m) (t0 : Int) (ht0 : 0 < t0) (cs : List Candle) (hsp : Spaced t0 cs) :
+    ∀ j, j ≤ cs.length → injectLongUpTo m cs j = .ok (visible m (cs.take (j / m * m))) := by
+  intro j
+  induction j with
+  | zero => intro _; simp [injectLongUpTo, visible, windows_nil]
+  | succ j ih =>
+    intro hj
+    have hlen : (cs.take (j + 1)).length = j + 1 := by rw [List.length_take]; omega
+    have hne : cs.take (j + 1) ≠ [] := by intro h0; rw [h0] at hlen; simp at hlen
+    have hk0 : k0 m (cs.take (j + 1)) = j / m := by unfold k0; rw [hlen]; rfl
+    unfold injectLongUpTo
+    rw [ih (by omega)]
+    simp only
+    by_cases hb : (j + 1) % m = 0
+    · rw [if_pos hb]
+      obtain ⟨hq, hfull⟩ := k0_of_boundary m (cs.take (j + 1)) hm hne (by rw [hlen]; exact hb)
+      rw [hlen, hk0] at hq hfull
+      have hjm : j / m * m = j + 1 - m := by
+        have : (j / m + 1) * m = j / m * m + m := by rw [Nat.add_mul, Nat.one_mul]
+        omega
+      have hmle : m ≤ j + 1 := by
+        have : (j / m + 1) * m = j / m * m + m := by rw [Nat.add_mul, Nat.one_mul]
+        omega
+      -- the window of this iteration
+      have hWlen : ((cs.drop (j + 1 - m)).take m).length = m := by
+        rw [List.length_take, List.length_drop]; omega
+      have hWne : (cs.drop (j + 1 - m)).take m ≠ [] := by
+        intro h0; rw [h0] at hWlen; simp at hWlen; omega
+      obtain ⟨a, c0, ha, hc0, hts⟩ := aggregate_some _ hWne
+      rw [generate_is_aggregate, ha]
+      simp only
+      have hc0' : cs[j + 1 - m]? = some c0 := by
+        rw [List.head?_take, if_neg (by omega), List.head?_drop] at hc0; exact hc0
+      have hlt : j + 1 - m < cs.length := by omega
+      have hats : a.ts = t0 + 60000 * ((j + 1 - m : Nat) : Int) := by
+        rw [hts]
+        rw [List.getElem?_eq_getElem hlt] at hc0'
+        rw [← Option.some.inj hc0']; exact hsp _ hlt
+      have hadd : addCandle (visible m (cs.take (j / m * m))) a = visible m (cs.take (j / m * m)) ++ [a] := by
+        apply add_appends
+        · rw [hats]; have : (0 : Int) ≤ ((j + 1 - m : Nat) : Int) := Int.natCast_nonneg _; omega
+        · intro last hl
+          have hmem : last ∈ visible m (cs.take (j / m * m)) := List.mem_of_getLast? hl
+          obtain ⟨c, hc, hcts⟩ := visible_ts_mem m _ last hmem
+          obtain ⟨k, hk, hck⟩ := List.getElem_of_mem hc
+          rw [List.length_take] at hk
+          have hk' : k < j + 1 - m := by rw [hjm] at hk; omega
+          rw [List.getElem_take] at hck
+          have := hsp k (by omega)
+          rw [hcts, ← hck, this, hats]
+          have : (k : Int) < ((j + 1 - m : Nat) : Int) := by exact_mod_cast hk'
+          omega
+      rw [hadd]
+      congr 1
+      -- what is visible of the first j + 1 minutes
+      rw [hq, hfull]
+      have hsplit : cs.take (j + 1) = cs.take (j / m * m) ++ (cs.drop (j + 1 - m)).take m := by
+        rw [hjm]
+        have : j + 1 = (j + 1 - m) + m := by omega
+        conv => lhs; rw [this, List.take_add]
+      rw [hsplit]
+      unfold visible
+      rw [windows_prefix_append m (j / m) _ _ hm (by rw [List.length_take]; omega), List.filterMap_append,
+        windows_short m _ hm hWne (by omega)]
+      simp [ha]
+    · rw [if_neg hb]
+      have := k0_of_forming m (cs.take (j + 1)) hm (by rw [hlen]; exact hb)
+      rw [hlen, hk0] at this
+      rw [this]
+
+/-- WARM-UP INJECTION ESTABLISHES THE STORE INVARIANT: for every warm-up series of minutes one minute apart (any
+    length) and every timeframe, the injection succeeds, the 1m array holds exactly the warm-up minutes and the bigger
+    array satisfies `StoreInv` with no partial candle — the state `get_candles_spec` / `get_current_candle_spec` and
+    the simulators' invariant start from -/
+theorem inject_warmup_establishes_inv (m : Nat) (hm : 0 < m) (t0 : Int) (ht0 : 0 < t0) (cs : List Candle)
+    (hsp : Spaced t0 cs) :
+    batchAdd [] cs = cs ∧ ∃ long, injectLongUpTo m cs cs.length = .ok long ∧ StoreInv m cs long := by
+  refine ⟨by simpa using batchAdd_spaced t0 ht0 cs [] (by simpa using hsp), _, injectLongUpTo_spec m hm t0 ht0 cs hsp _ (Nat.le_refl _), ?_⟩
+  exact ⟨[], by simp, Or.inl rfl⟩
+
+/-- non-vacuity: five warm-up minutes, timeframe 2: two complete windows, the fifth minute is not stored above 1m -/
+example : injectLongUpTo 2 [⟨60000, 1, 2, 3, 0, 1⟩, ⟨120000, 2, 3, 4, 1, 1⟩, ⟨180000, 3, 1, 5, 1, 1⟩, ⟨240000, 1, 1, 1, 1, 1⟩,
+      ⟨300000, 1, 2, 2, 1, 1⟩] 5 = .ok [⟨60000, 1, 3, 4, 0, 2⟩, ⟨180000, 3, 1, 5, 1, 2⟩] := by decide +kernel
+
+end warmup
+
 end C07
